@@ -247,6 +247,8 @@ def _vm_goal(case, out):
         return "set_query_params %s %s = %s" % (_vm_str(p[1]), kvs, _vm_str(o[0]))
     if k == "QE":
         return "(query_escape %s, query_unescape %s) = (%s, %s)" % (_vm_str(p[1]), _vm_str(p[1]), _vm_str(o[0]), "None" if o[1] == "!" else "Some %s" % _vm_str(o[1]))
+    if k == "XB":
+        return "consumed_index %s %s = %s" % (_vm_z(p[1]), p[2], o[0])
     if k == "RB":
         return "consumed_of %s %s %s = %s" % (_vm_z(p[1]), p[2], p[3], o[0])
     if k == "J":
@@ -280,7 +282,7 @@ def _c15_vm_sample(d, tier, coq, build, want=300):
             outs[i] = o
     # a spread over the case kinds, small cases preferred (the term is type-checked too)
     quota = {"C": 80, "W": 60, "S": 45, "L": 10, "F": 6, "FR": 6, "Z": 6, "O": 10, "X": 10, "P": 8,
-             "U": 40, "U0": 10, "QS": 15, "QE": 10, "RR": 40, "CS": 40, "J": 30, "RB": 30}
+             "U": 40, "U0": 10, "QS": 15, "QE": 10, "RR": 40, "CS": 40, "J": 30, "RB": 30, "XB": 10}
     got = collections.Counter()
     stride = collections.Counter()
     total = collections.Counter()
@@ -355,7 +357,7 @@ CONFIG = {
         "http transport, auth client and context cancellation are outside the model; Repository.Referrers' capability detection (unknown/supported/unsupported, fallback to the tag schema, state set once) is modelled (referrers_wrap, C15_referrers_capability) on top of the API loop and the tag-schema path; the tag-schema path is modelled at the level (tag found?, index size, listed referrers): limitSize + filterReferrers (C15_tag_schema), manifest fetch / digest verification are C13/C05 matters; pingReferrers is modelled on one response (C15_ping_agrees)",
         "Link: only the first header line and its first <...> are read (model = code); link-values/lines AFTER the next link are covered by the theorems (trailer) and generated; a link-value of another relation BEFORE the next link is the known finding link-rel-ignored (C15_link_rel_first_refuted), generated in a separate stream whose failures carry only that signature",
         "Content-Type of a referrers response is compared verbatim with ocispec.MediaTypeImageIndex (hand-copied constant of the pinned image-spec dependency): parameters or another spelling count as 'no referrers API' (C15_content_type_exact) -- modelled as the code behaves, generated as a disturbance",
-        "never over-read: the bytes a decoded answer costs are MODELLED (Model/PagingJson.v consumed_of: limitReader, then json.Decoder's refills 512, 1536, 3584 ... until the value is complete or EOF) and compared with a counting body on every decoded listing answer (RB lines, incl. the 4 MiB default); C15_bytes_consumed: never more than MaxMetadataBytes, never more than the body; the independent oracle (BytesRead <= limit) stays on every 200 answer incl. the Referrers wrapper and the index GET of the tag-schema fallback (content.ReadAll there is not modelled); error bodies (non-200) are read by errutil under its own 8 KiB limit and are not judged",
+        "never over-read: the bytes a decoded answer costs are MODELLED (Model/PagingJson.v consumed_of: limitReader, then json.Decoder's refills 512, 1536, 3584 ... until the value is complete or EOF) and compared with a counting body on every decoded listing answer (RB lines, incl. the 4 MiB default); C15_bytes_consumed: never more than MaxMetadataBytes, never more than the body; the independent oracle (BytesRead <= limit) stays on every 200 answer incl. the Referrers wrapper and the index GET of the tag-schema fallback (its bytes: consumed_index, C15_bytes_consumed_index, compared on the tag-schema stream); error bodies (non-200) are read by errutil under its own 8 KiB limit and are not judged",
         "calculateDigestFromResponse (manifest GET without Docker-Content-Digest) is modelled (digest_probe, C15_digest_probe: Content-Length over the limit refused before reading, else limitReader; the theorem assumes Content-Length = body length, which the transport guarantees); its first version (limit+1 reader) is kept as digest_probe_v1 with a refuted witness, fixed finding over-read-digest-probe; content/oci: a reference in digest form can only be the content's own digest (C08 fix 2b70301), the generator checks that the digest of other content is refused and that Tags() skips digest entries",
         "the known finding link-rel-ignored is matched by mechanism: only exactly-once / next-request / spurious-error failures of a run in which some request IS the target of the rel=first link-value; every other signature in such a run is reported as itself",
         "47 syntactic facts about the mirrored Go functions (translator kind c15_srcfact: where `last` is cleared, how parseLink reads and resolves the header, setQueryParams' split/cut/unescape/escape, the error texts the harness classifies by, limitReader, the Referrers fallback condition, listTags' comparisons) are regenerated on every run and proved by reflexivity (Proofs/PagingFacts.v): an edit there breaks layer P; 27 functions are anchored",
